@@ -229,6 +229,30 @@ func (p *eparser) typeText() (string, error) {
 		t2 := p.next()
 		s += "." + t2.s
 	}
+	// explicit instantiation: Name[Arg, ...]
+	if p.isOp("[") && p.p+1 < len(p.toks) && (p.toks[p.p+1].k == "id" || (p.toks[p.p+1].k == "op" && p.toks[p.p+1].s == "*")) {
+		save := p.p
+		p.next()
+		var args []string
+		ok := true
+		for {
+			a, err := p.typeText()
+			if err != nil {
+				ok = false
+				break
+			}
+			args = append(args, a)
+			if p.accept(",") {
+				continue
+			}
+			break
+		}
+		if ok && p.accept("]") {
+			s += "[" + strings.Join(args, ",") + "]"
+		} else {
+			p.p = save
+		}
+	}
 	return s, nil
 }
 
